@@ -1,4 +1,5 @@
 import Pike.Model.Upstream
+import Pike.Facts
 /-
 C19 — traffic goes only to healthy upstream servers, backups last (PARTIAL: the health vector is
 an input here; how fast the checker updates it is runtime behaviour exercised by the suite).
@@ -6,6 +7,14 @@ an input here; how fast the checker updates it is runtime behaviour exercised by
 namespace Pike
 namespace C19
 open Upstream
+
+/-- Obligation on the extracted facts (upstream/upstream.go): every upstream gets one synchronous
+health check when it is created and then the periodic checker, started unconditionally — the
+health vector `next` reads is therefore kept current for every configuration (whether or not a
+health-check path is configured), which is what "traffic resumes by itself" rests on.  How fast
+the checker reacts is runtime behaviour, exercised by the `settle` mode of the suite. -/
+theorem facts_checker_started :
+    Facts.healthCheckOnCreate = true ∧ Facts.healthCheckLoopUnconditional = true := by decide
 
 theorem mem_candidates {ss : List Server} {i : Nat} (h : i ∈ candidates ss) :
     ∃ s, ss[i]? = some s ∧ s.healthy = true
